@@ -76,4 +76,186 @@ def c10():
                         "the commit batch fails or succeeds as a whole (partial commits are C11)"]
     return chk.finish()
 
-TABLE = {"C10": c10}
+def export_schedules(chk, cfg):
+    res = run_tlc_mc("MCConcurrent", cfg, chk.wd, workers=4, timeout=900, heap="8g")
+    chk.add_mc(res)
+    if res["violation"]:
+        chk.violation(f"TLC: design-level violation in {cfg}: {res['violation'][:300]}", {"tlc_output": res["out"]})
+    scheds = [json.loads(x) for x in res["export"].get("SCHED", [])]
+    log(f"[mc] {cfg}: {res['distinct']} distinct states, {len(scheds)} complete interleavings exported")
+    return scheds
+
+def run_conc_harness(chk, behaviours, name="conc"):
+    binp = build_harness()
+    inp = f"{chk.wd}/{name}_behaviours.ndjson"
+    with open(inp, "w") as f:
+        for b in behaviours:
+            f.write(json.dumps(b) + "\n")
+    outd = f"{chk.wd}/{name}_traces"
+    rc, out, err = sh(f"{binp} conc --in {inp} --out {outd} --threads {min(NCPU, 16)}", timeout=3000)
+    if rc != 0:
+        raise ToolError(f"harness conc failed rc={rc}: {err[-2000:]}")
+    info = json.loads(out.strip().splitlines()[-1])
+    chk.cov["evaluations"] += info["behaviours"]
+    chk.cov.setdefault("events", 0)
+    chk.cov["events"] += info["events"]
+    return sorted(glob.glob(f"{outd}/trace_*.ndjson"))
+
+TAIL = [1] * 80 + [2] * 80 + [3] * 80 + [4] * 80 + [5] * 80
+
+PUB_SCENARIOS = [
+    # (prefix, batch of publisher 1, batch of publisher 2[, batch of publisher 3])
+    ([[["a", "x"]]], [["a", "y"]], [["b", "x"]]),
+    ([[["a", "x"]], [["b", "x"]]], [["a", "y"]], [["a", "y"]]),
+    ([], [["a", "x"]], [["a", "y"], ["b", "y"]]),
+    ([[["a", "x"], ["b", "x"]]], [["a", "y"], ["b", "y"]], [["b", "y"]]),
+]
+
+def c12():
+    chk = Check("C12", "model_checking")
+    run_conc_mc(chk, "MCConcurrent_pub2.cfg")
+    run_conc_mc(chk, "MCConcurrent_pub3c.cfg")
+    run_conc_mc(chk, "MCConcurrent_pub2_pinned.cfg", expect_violation=True)
+    run_conc_mc(chk, "MCConcurrent_pub2_norecheck.cfg", expect_violation=True)
+    run_conc_mc(chk, "MCConcurrent_pub2_noheld.cfg", expect_violation=True)
+    scheds = export_schedules(chk, "MCConcurrent_pub2x.cfg")
+    rnd = random.Random(chk.seed)
+    bs = []
+    def add(prefix, procs, schedule, cache):
+        bs.append({"id": len(bs) + 1, "cfg": ["wa", "exp"][len(bs) % 2], "conc": len(bs) % 3, "cache": cache, "labels": ["a", "b"], "values": ["x", "y"],
+                   "kinds": ["epoch_hash", "lookup", "audit"], "prefix": prefix, "procs": procs, "schedule": schedule})
+    pidmap = {"A": 1, "B": 2, "C": 3}
+    # (i) every complete interleaving of the two-publisher model, as storage-operation grants
+    take = scheds if chk.tier == "thorough" else rnd.sample(scheds, min(len(scheds), 260))
+    for i, sc in enumerate(take):
+        prefix, b1, b2 = PUB_SCENARIOS[i % len(PUB_SCENARIOS)][:3]
+        mult = 1 + (i % 3)
+        seq = [pidmap[x] for x in sc for _ in range(mult)]
+        add(prefix, [{"pid": 1, "kind": "publish", "batch": b1}, {"pid": 2, "kind": "publish", "batch": b2}], seq + TAIL, ["none", "default"][i % 2])
+    # (ii) bounded preemption: A runs i operations, B runs j, A finishes, B finishes (and mirrored)
+    rng_i = range(0, 15) if chk.tier == "quick" else range(0, 30)
+    for si, (prefix, b1, b2) in enumerate(PUB_SCENARIOS):
+        for i in rng_i:
+            for j in (range(0, 15, 2) if chk.tier == "quick" else range(0, 30)):
+                for (first, second) in ((1, 2), (2, 1)):
+                    if chk.tier == "quick" and (i + j + si) % 3 != 0:
+                        continue
+                    add(prefix, [{"pid": 1, "kind": "publish", "batch": b1}, {"pid": 2, "kind": "publish", "batch": b2}],
+                        [first] * i + [second] * j + [first] * 80 + [second] * 80, ["none", "default"][(i + j) % 2])
+    # (iii) three publishers, seeded random schedules
+    for k in range(150 if chk.tier == "quick" else 3000):
+        seq = [rnd.choice([1, 2, 3]) for _ in range(rnd.randint(5, 60))]
+        add([[["a", "x"]]], [{"pid": 1, "kind": "publish", "batch": [["a", "y"]]}, {"pid": 2, "kind": "publish", "batch": [["b", "x"]]},
+                              {"pid": 3, "kind": "publish", "batch": [["a", "y"], ["b", "y"]]}], seq + TAIL, ["none", "default"][k % 2])
+    traces = run_conc_harness(chk, bs)
+    results = validate_traces("TraceDirectory", "TraceDirectory.cfg", traces, chk.wd)
+    chk.handle_validation(results)
+    both = 0
+    refused = 0
+    seen = set()
+    for evs in props_dir.scan_behaviours(traces):
+        cp = [e for e in evs if e["ev"] == "cpublish"]
+        oks = [e for e in cp if e["res"] == "ok"]
+        if len(oks) >= 2:
+            both += 1
+        refused += sum(1 for e in cp if e["res"] == "err")
+        run = [e for e in evs if e["ev"] == "reopen" and e.get("kind") == "concurrent_run"]
+        if run and run[0]["granted"] >= 3:
+            seen.add(json.dumps(run[0]["schedule"][:60]) + json.dumps([e["batch"] for e in cp]) + evs[0]["cfg"] + evs[0]["cell"]["cache"])
+        if len(chk.cov["samples"]) < 2 and len(oks) >= 2:
+            chk.cov["samples"].append([e for e in evs if e["ev"] in ("reset", "publish", "cpublish", "final_leaves")] + [{"schedule": run[0]["schedule"][:40]}])
+    chk.cov["runs_with_two_or_more_effective_publishes"] = both
+    chk.cov["refused_calls"] = refused
+    chk.cov["distinct_nontrivial"] = len(seen)
+    chk.cov["exhaustive"] = False
+    chk.cov["rule"] = ("TLC checks EpochsDistinct, ReturnedPairsStayPublished, FinalEqualsSerial and NoTxnLeftOpen over ALL interleavings of 2 (and 3, cached) "
+        "publishers at storage-operation granularity on AkdConcurrent, and refutes each pinned switch (epoch read before the flag, flag released before "
+        "the database write). Real runs: publishes on clones of one Directory as tasks whose every storage operation is granted by the harness's gate: "
+        "(i) the complete interleavings exported by TLC (as operation grants, stretched x1..x3), (ii) all two-preemption schedules 'A i ops, B j ops, A to "
+        "end, B to end' and mirrored, (iii) seeded random schedules of three publishers; cached and uncached. The calls are serialised by returned epoch "
+        "and TLC validates them against AkdDirectory: effective calls take consecutive epochs, failed calls have no effect, the final leaves and the "
+        "full sweep equal the serial application, no transaction is left open. Non-trivial = distinct (schedule, batches, configuration, cache) runs with "
+        ">= 3 gated operations.")
+    chk.assumptions += ["interleavings at storage-operation granularity on a single-threaded runtime (finer interleavings, e.g. between two statements that perform no storage operation, are not explored)",
+                        "a refused call (transaction active / directory moved) counts as 'fails without effect'"]
+    return chk.finish()
+
+def c13():
+    chk = Check("C13", "model_checking")
+    run_conc_mc(chk, "MCConcurrent_read.cfg")
+    run_conc_mc(chk, "MCConcurrent_readfault.cfg")
+    run_conc_mc(chk, "MCConcurrent_read_pinned.cfg", expect_violation=True)
+    scheds = export_schedules(chk, "MCConcurrent_readx.cfg")
+    rnd = random.Random(chk.seed)
+    # (a) lagging remote instance: warmed at epoch t, storage moves on by 1..4 epochs; with and without poller
+    lag = []
+    hist = [[["a", "x"]], [["a", "y"], ["b", "x"]], [["b", "y"]], [["a", "x"]], [["a", "y"], ["b", "x"]], [["b", "y"]]]
+    for warm_at in (1, 2, 3):
+        for cache in ("default", "short"):
+            for poll_after in (None, 1, 2, 3):
+                steps = [{"op": "publish", "batch": b} for b in hist[:warm_at]]
+                steps.append({"op": "remote_open", "cache": cache})
+                for k, b in enumerate(hist[warm_at:warm_at + 3]):
+                    steps.append({"op": "publish", "batch": b})
+                    if poll_after is not None and k + 1 == poll_after:
+                        steps.append({"op": "remote_poll"})
+                    steps.append({"op": "remote_read"})
+                for cfg in ("wa", "exp"):
+                    lag.append({"id": len(lag) + 1, "cfg": cfg, "conc": len(lag) % 3, "cell": dict(props_dir.DEFAULT_CELL), "labels": ["a", "b"],
+                                "values": ["x", "y"], "kinds": [], "sweep": "end", "steps": steps})
+    ltraces = props_dir.run_dir_harness(chk, lag, name="lag")
+    # (b) requests overlapping publishes, gate-scheduled
+    bs = []
+    def add(prefix, procs, schedule, cache):
+        bs.append({"id": len(bs) + 1, "cfg": ["wa", "exp"][len(bs) % 2], "conc": len(bs) % 3, "cache": cache, "labels": ["a", "b"], "values": ["x", "y"],
+                   "kinds": ["epoch_hash", "lookup"], "prefix": prefix, "procs": procs, "schedule": schedule})
+    readers = [{"kind": "lookup", "label": "a"}, {"kind": "history", "label": "a", "n": 0}, {"kind": "history", "label": "a", "n": 1},
+               {"kind": "audit", "s": 0, "e": 2}, {"kind": "epoch_hash"}, {"kind": "lookup", "label": "b"}]
+    prefix = [[["a", "x"]], [["a", "y"], ["b", "x"]]]
+    pidmap = {"A": 1, "r": 3}
+    take = scheds if chk.tier == "thorough" else rnd.sample(scheds, min(len(scheds), 120))
+    for i, sc in enumerate(take):
+        rd = dict(readers[i % len(readers)], pid=3)
+        mult = 1 + (i % 3)
+        seq = [pidmap.get(x, 3) for x in sc for _ in range(mult)]
+        add(prefix, [{"pid": 1, "kind": "publish", "batch": [["a", "x"]]}, rd], seq + TAIL, ["none", "default"][i % 2])
+    for ri, rd0 in enumerate(readers):
+        for i in (range(0, 14) if chk.tier == "quick" else range(0, 40)):
+            # reader runs i operations, one or two publishes complete, reader finishes
+            for npub in (1, 2):
+                procs = [{"pid": 1, "kind": "publish", "batch": [["a", "x"]]}, dict(rd0, pid=3)]
+                sched = [3] * i + [1] * 80
+                if npub == 2:
+                    procs.append({"pid": 2, "kind": "publish", "batch": [["b", "y"]]})
+                    sched += [2] * 80
+                add(prefix, procs, sched + [3] * 80, ["none", "default"][(i + ri) % 2])
+    ctraces = run_conc_harness(chk, bs)
+    results = validate_traces("TraceDirectory", "TraceDirectory.cfg", ltraces + ctraces, chk.wd)
+    chk.handle_validation(results)
+    answers = {}
+    seen = set()
+    for evs in props_dir.scan_behaviours(ltraces + ctraces):
+        ra = [e for e in evs if e["ev"] == "ranswer"]
+        cur = max([e["epoch"] for e in evs if e["ev"] in ("publish", "cpublish") and e["res"] == "ok"] + [0])
+        for e in ra:
+            key = (e["kind"], e["res"], "behind" if e.get("epoch", 0) < cur and e["res"] == "ok" else "current" if e["res"] == "ok" else "-")
+            answers[str(key)] = answers.get(str(key), 0) + 1
+        if any(e["res"] == "ok" and e.get("epoch", 0) < cur for e in ra) or any(e["res"] == "err" for e in ra):
+            seen.add(json.dumps([e for e in evs if e["ev"] in ("publish", "cpublish", "reopen", "notify")])[:600] + evs[0]["cfg"])
+        if len(chk.cov["samples"]) < 2 and any(e["res"] == "ok" and e.get("epoch", 0) < cur for e in ra):
+            chk.cov["samples"].append([e for e in evs if e["ev"] in ("reset", "publish", "cpublish", "reopen", "notify")][:10] + [e for e in ra if e["res"] == "ok"][:3])
+    chk.cov["answers_by_kind_result"] = answers
+    chk.cov["distinct_nontrivial"] = len(seen)
+    chk.cov["exhaustive"] = False
+    chk.cov["rule"] = ("TLC checks AnswersArePublished (the answer names a published (epoch, root) pair and every node version it used is the version as of "
+        "that epoch) over all interleavings of publishers, a local reader, a remote reader whose cached epoch record lags 0..2 epochs, the remote "
+        "poller, and one storage fault; the pinned 'previous version unchecked' switch is refuted. Real runs: (a) a second cached instance over the same "
+        "database, warmed at epoch t, read after storage moved on by 1, 2 and 3 epochs (default and 2 ms caches), with the real change poller run at "
+        "different points (answers after a notification must be at least that new); (b) lookup / history / audit / epoch-hash requests overlapping one or "
+        "two publishes under TLC-exported interleavings and 'reader i operations, publishes complete, reader finishes' schedules through the gate. "
+        "Every answer is verified by akd's client verifier against the pair returned with it and TLC validates: error, or a pair really published with "
+        "the results as of exactly that epoch. Non-trivial = distinct runs in which some answer is an error or comes from an epoch behind storage.")
+    chk.assumptions += ["interleavings at storage-operation granularity (a reader on a clone of the writer that reads the pending epoch record from the shared transaction log between two statements of publish is outside this granularity; see DESIGN.md section 10)"]
+    return chk.finish()
+
+TABLE = {"C10": c10, "C12": c12, "C13": c13}
